@@ -873,8 +873,10 @@ SepPair_SP &SepMatrix::getSepPair(id_type id1, id_type id2) {
             sp = std::make_shared<SepPair>();
             sp->src = id1;
             sp->tgt = id2;
-            sp->flippedRetrieval = false;
         }
+        // Record the order of *this* retrieval, also for a pair that
+        // already exists (it may have been created under the other order).
+        sp->flippedRetrieval = false;
         return sp;
     } else { // id2 < id1
         SepPair_SP &sp = m_sparseLookup[id2][id1];
@@ -882,8 +884,8 @@ SepPair_SP &SepMatrix::getSepPair(id_type id1, id_type id2) {
             sp = std::make_shared<SepPair>();
             sp->src = id2;
             sp->tgt = id1;
-            sp->flippedRetrieval = true;
         }
+        sp->flippedRetrieval = true;
         return sp;
     }
 }
